@@ -184,6 +184,91 @@ def _run_session(workdir, cfg, order, strategy="in memory", salt=0, fetch_all=Tr
     return rec
 
 
+def run_multiscale(workdir, cfgs, order, strategy="in memory", salt=0, cs=4):
+    """ONE accessor object writes several scales of one dataset (different grids, different
+    sharding parameters), the stores of the scales interleaved as `order` says.
+
+    cfgs: list of dict(grid, pb, mb, sb, enc[, ienc]); order: list of (scale index, pos).
+    Returns one record per scale, each in the format of _run_session (judged separately)."""
+    from neuroglancer_scripts import sharded_file_accessor as sfa
+    keys = ["s%d" % k for k in range(len(cfgs))]
+    sizes = [[g * cs - (1 if g > 1 else 0) for g in cfg["grid"]] for cfg in cfgs]
+    info = None
+    for k, cfg in enumerate(cfgs):
+        enc = cfg.get("enc", "raw")
+        one = make_info(cfg["grid"], cs, cfg["pb"], cfg["mb"], cfg["sb"], enc, sizes[k], ienc=cfg.get("ienc") or enc)
+        one["scales"][0]["key"] = keys[k]
+        one["scales"][0]["resolution"] = [2 ** k] * 3
+        if info is None:
+            info = one
+        else:
+            info["scales"].append(one["scales"][0])
+    d = tempfile.mkdtemp(prefix="ms_", dir=workdir)
+    with open(os.path.join(d, "info"), "w") as f:
+        json.dump(info, f)
+    old_tmp = tempfile.tempdir
+    tempfile.tempdir = workdir
+    recs = [{"cfg": {"grid": list(cfg["grid"]), "pb": cfg["pb"], "mb": cfg["mb"], "sb": cfg["sb"]},
+             "enc": cfg.get("enc", "raw"), "ienc": cfg.get("ienc") or cfg.get("enc", "raw"),
+             "strategy": strategy, "stores": [], "storeerr": [], "ids": [], "files": [], "fetch": [],
+             "framing": [], "closeerr": None, "scale": k,
+             "multiscale": {"cfgs": [dict(c) for c in cfgs], "order": [[j, list(q)] for j, q in order],
+                            "salt": salt, "strategy": strategy}}
+            for k, cfg in enumerate(cfgs)]
+    try:
+        with contextlib.redirect_stdout(io.StringIO()):
+            acc = sfa.ShardedFileAccessor(d, strategy=strategy)
+            try:
+                for k, pos in order:
+                    pay = payload_for(pos, salt + k)
+                    try:
+                        acc.store_chunk(pay, keys[k], coords_of(pos, cs, sizes[k]))
+                        recs[k]["stores"].append({"pos": list(pos), "pay": list(pay)})
+                    except Exception as e:  # recorded, judged by TLC
+                        recs[k]["storeerr"].append({"pos": list(pos), "cls": type(e).__name__})
+                try:
+                    acc.close()
+                except Exception as e:
+                    for r in recs:
+                        r["closeerr"] = type(e).__name__
+                        r["storeerr"].append({"pos": [-1, -1, -1], "cls": "close:" + type(e).__name__})
+            finally:
+                atexit.unregister(acc.close)
+            acc2 = sfa.ShardedFileAccessor(d)
+            try:
+                for k, cfg in enumerate(cfgs):
+                    sdir = os.path.join(d, keys[k])
+                    names = sorted(os.listdir(sdir)) if os.path.isdir(sdir) else []
+                    hashes, framing = [], set()
+                    for n in names:
+                        with open(os.path.join(sdir, n), "rb") as f:
+                            raw = f.read()
+                        hashes.append(n + ":" + hashlib.sha1(raw).hexdigest())
+                        if n.endswith(".shard"):
+                            form, fr = parsers.parse_shard(raw, n[:-len(".shard")], cfg["mb"], recs[k]["ienc"], recs[k]["enc"])
+                            recs[k]["files"].append(form)
+                            framing.update(fr)
+                    recs[k]["hash"] = "|".join(hashes)
+                    recs[k]["framing"] = sorted(framing)
+                    for pos in all_pos(cfg["grid"]):
+                        try:
+                            b = acc2.fetch_chunk(keys[k], coords_of(pos, cs, sizes[k]))
+                            if isinstance(b, (bytes, bytearray)):
+                                recs[k]["fetch"].append({"pos": list(pos), "st": "bytes", "data": list(b)})
+                            else:
+                                recs[k]["fetch"].append({"pos": list(pos), "st": "other", "data": []})
+                        except Exception as e:
+                            recs[k]["fetch"].append({"pos": list(pos), "st": "exc", "data": [], "cls": type(e).__name__})
+            finally:
+                atexit.unregister(acc2.close)
+    finally:
+        tempfile.tempdir = old_tmp
+        shutil.rmtree(d, ignore_errors=True)
+    for r in recs:
+        r["dir"] = None
+    return recs
+
+
 def drop_dir(rec):
     shutil.rmtree(rec.pop("dir", ""), ignore_errors=True)
 
